@@ -84,7 +84,7 @@ func (ie *ImageExtractor) Extract(node *html.Node) webdoc.Element {
 			ie.processPicture(image)
 		}
 
-		figCaption := domutil.GetFirstElementByTagName(node, "figcaption")
+		figCaption := ie.findVisibleFigCaption(node)
 		if figCaption == nil {
 			figCaption = ie.createFigCaption(node)
 		} else {
@@ -166,6 +166,26 @@ func (ie *ImageExtractor) findRealFigureImage(figure *html.Node) *html.Node {
 
 		if image != nil {
 			return image
+		}
+	}
+
+	return nil
+}
+
+// findVisibleFigCaption returns the first <figcaption> of the figure that is not
+// hidden, neither by itself nor by one of its ancestors inside the figure.
+func (ie *ImageExtractor) findVisibleFigCaption(figure *html.Node) *html.Node {
+	for _, figCaption := range dom.GetElementsByTagName(figure, "figcaption") {
+		visible := true
+		for n := figCaption; n != nil && n != figure; n = n.Parent {
+			if !domutil.IsProbablyVisible(n) {
+				visible = false
+				break
+			}
+		}
+
+		if visible {
+			return figCaption
 		}
 	}
 
